@@ -544,6 +544,8 @@ impl W2Check {
             initial_min_len: 0,
             max_ops,
             big_writes: false,
+            // C12: the metadata sync inside flush / compact may fail (error path followed by success)
+            sync_faults: self.id == "C12",
         }
     }
 }
